@@ -63,6 +63,10 @@ def gen_case(r, idx):
     c["bp_targets"] = r.randint(0, 2)
     # plan + store (build)
     c["plan"] = [(r.choice(tomlw.RND_STRINGS), None if r.random() < 0.3 else tomlw.rnd_table(r, 1)) for _ in range(r.choice([0, 1, 2, 4]) if idx % 100 != 98 else r.randint(40, 120))]
+    if c["plan"] and r.random() < 0.3:
+        # the same entry twice in a row (two buildpacks requiring the same thing with the same metadata): the plan holds both
+        k = r.randrange(len(c["plan"]))
+        c["plan"].insert(k, c["plan"][k])
     c["store"] = r.choice(["absent", "absent", "valid", "valid", "valid-empty", "bad-utf8", "directory", "malformed", "no-metadata-key"])
     c["plan_defect"] = r.choice([None] * 8 + ["entry-unknown-key", "entry-unknown-table", "root-unknown-key", "entry-name-missing", "store-unknown-key"])
     c["store_md"] = tomlw.rnd_table(r, 0)
